@@ -277,7 +277,7 @@ fn check_pair(run: &Run, l: &Laws, ta: &str, a: &Value, tb: &str, b: &Value, ord
     );
   }
   // ordered kinds
-  if ka == kb && matches!(ka, "number" | "string" | "date") {
+  if ka == kb && matches!(ka, "number" | "string" | "date" | "date-time") {
     let gt_ab = (l.gt_ab)(&s);
     n += 1;
     let trues = [tri(&lt_ab), tri(&eq_ab), tri(&gt_ab)];
@@ -309,7 +309,7 @@ fn check_pair(run: &Run, l: &Laws, ta: &str, a: &Value, tb: &str, b: &Value, ord
 
 fn check_triple(run: &Run, l: &Laws, ta: &str, a: &Value, tb: &str, b: &Value, tc: &str, c: &Value, cnt: &Cnt) {
   let (ka, kb, kc) = (kind(a), kind(b), kind(c));
-  if !(ka == kb && kb == kc && matches!(ka, "number" | "string" | "date")) {
+  if !(ka == kb && kb == kc && matches!(ka, "number" | "string" | "date" | "date-time")) {
     return;
   }
   let s = scope3(a, b, Some(c));
@@ -452,8 +452,21 @@ pub fn run() {
     .into_iter()
     .filter_map(|d| dmntk_feel::FeelDate::try_from(d.as_str()).ok().map(|v| (format!("date(\"{}\")", d), Value::Date(v))))
     .collect();
-  let lattice_sizes = json!({"numbers": nums.len(), "strings": strs.len(), "dates": dates.len()});
-  for lat in [&nums, &strs, &dates] {
+  // date and time values a few hours around midnight in offsets 22 hours apart and a named zone: the order of the
+  // instants is not the order of the dates and times as written
+  let mut dts: Vec<(String, Value)> = vec![];
+  for day in 1..=4 {
+    for hm in ["01:00:00", "23:00:00"] {
+      for zone in ["-10:00", "Z", "+12:00", "@Europe/Warsaw"] {
+        let text = format!("2020-01-{:02}T{}{}", day, hm, zone);
+        if let Ok(v) = dmntk_feel::FeelDateTime::try_from(text.as_str()) {
+          dts.push((format!("date and time(\"{}\")", text), Value::DateTime(v)));
+        }
+      }
+    }
+  }
+  let lattice_sizes = json!({"numbers": nums.len(), "strings": strs.len(), "dates": dates.len(), "dates and times": dts.len()});
+  for lat in [&nums, &strs, &dates, &dts] {
     (0..lat.len()).into_par_iter().for_each(|i| {
       let l = laws();
       let (ta, a) = &lat[i];
@@ -474,7 +487,7 @@ pub fn run() {
   run.set("traces_validated_against_impl", json!(cnt.instances.load(Ordering::Relaxed)));
   run.set("evaluations", json!(cnt.evals.load(Ordering::Relaxed)));
   run.set("distinct_nontrivial", json!(cnt.instances.load(Ordering::Relaxed)));
-  run.set("rule", json!("law instances: every ordered pair of the value alphabet (all laws), every ordered triple of one ordered kind (between / interval / comparison agreement), plus all pairs and triples of the dense number, string and date lattices; all distinct by construction"));
+  run.set("rule", json!("law instances: every ordered pair of the value alphabet (all laws), every ordered triple of one ordered kind (between / interval / comparison agreement), plus all pairs and triples of the dense number, string, date and date-and-time lattices; all distinct by construction"));
   run.set("exhaustive", json!(true));
   run.set("alphabet", json!(texts));
   run.set("alphabet_kinds", json!(kinds.iter().collect::<Vec<_>>()));
